@@ -35,7 +35,8 @@ def run(ctx):
         while left > 0:
             k = min(400, left)
             t = os.path.join(td, 'rand%d.ndjson' % i)
-            fc.run_filter(ctx, vh, t, n=k, steps=30 if quick else 40, seed=ctx.seed * 1000 + i, kinds='sub', prefix=p)
+            fc.run_filter(ctx, vh, t, n=k, steps=30 if quick else 40, seed=ctx.seed * 1000 + i, kinds='sub', prefix=p,
+                          conc=300 if quick else 3000)
             traces.append(t)
             left -= k
             i += 1
@@ -47,11 +48,12 @@ def run(ctx):
                           dict(hostile=fc.sample_events(traces[0], 2, lambda e: '..' in e.get('r', '') and e['backend'])),
                           dict(listing=fc.sample_events(traces[-1], 2, lambda e: e['op'] == 'ListRepos' and e.get('start')))]
     vlib.judge_traces(ctx, 'OciFilterTrace', 'OciFilterTrace.cfg', traces, shard_lines=1500 if quick else 6000, label='Sub vs OciFilter')
-    need = ['sub:ListRepos', 'sub:MountBlob', 'sub:Write', 'sub:Commit', 'sub:GetBlob', 'sub:Referrers']
+    need = ['sub:concurrent-calls', 'sub:ListRepos', 'sub:MountBlob', 'sub:Write', 'sub:Commit', 'sub:GetBlob', 'sub:Referrers']
     missing = [k for k in need if not ctx.cov['per_op'].get(k)]
     if missing:
         raise vlib.Machinery('the batch never exercised: %s' % ', '.join(missing))
-    ctx.assumptions += ['repository-name validity is decided by OciRef!IsRepository (the C17 grammar) on the bytes of each name; the header only encodes strings as bytes',
+    ctx.assumptions += ['concurrent use of one view: 8 goroutines, each call judged on its own (the backend saw that call\'s scope rewritten and that call\'s name prefixed); scheduling is the Go runtime\'s, not enumerated',
+                        'repository-name validity is decided by OciRef!IsRepository (the C17 grammar) on the bytes of each name; the header only encodes strings as bytes',
                         'a repository-typed scope with the empty name may stay empty or become "prefix/" (it names no repository either way)',
                         'the backend is ocimem (validated against OciRegistry by C02), which answers an invalid name with an error',
                         'harness digest/JSON rendering; TLC + community modules']
